@@ -44,6 +44,10 @@ harness!(se_h_c15_from8, c15_from8, {
     let mut src = [0u8; 64];
     let mut i = 0;
     while i < pre { src[i] = 0x61 + (i % 20) as u8; i += 1; }
+    // param 4: a concrete character between the filler and the symbolic bytes (0 none, 1 two-byte U+00E4, 2 three-byte U+20AC,
+    // 3 four-byte U+1F600): the conversion loops hand over to the "next lead" logic differently after each sequence length
+    let lead: &[u8] = match param(4) { 1 => b"\xC3\xA4", 2 => b"\xE2\x82\xAC", 3 => b"\xF0\x9F\x98\x80", _ => b"" };
+    let pre = { let mut j = 0; while j < lead.len() { src[pre + j] = lead[j]; j += 1; } pre + lead.len() };
     i = 0;
     while i < n { src[pre + i] = sym_u8(i as u32); i += 1; }
     let len = pre + n;
@@ -154,6 +158,9 @@ harness!(se_h_c15_from16, c15_from16, {
     let mut src = [0u16; 64];
     let mut i = 0;
     while i < pre { src[i] = 0x61 + (i % 20) as u16; i += 1; }
+    // param 4: a concrete character between the filler and the symbolic units (0 none, 1 U+00E4, 2 U+20AC, 3 the pair for U+1F600)
+    let lead: &[u16] = match param(4) { 1 => &[0x00E4], 2 => &[0x20AC], 3 => &[0xD83D, 0xDE00], _ => &[] };
+    let pre = { let mut j = 0; while j < lead.len() { src[pre + j] = lead[j]; j += 1; } pre + lead.len() };
     i = 0;
     while i < n { src[pre + i] = sym_u16(i as u32); i += 1; }
     let len = pre + n;
